@@ -90,6 +90,13 @@ func (d *Disk) FailPuts(match string, n int) {
 	d.mu.Unlock()
 }
 
+// ClearPutFaults disarms the injected write faults that have not fired.
+func (d *Disk) ClearPutFaults() {
+	d.mu.Lock()
+	d.putFaults = nil
+	d.mu.Unlock()
+}
+
 // PendingPutFaults reports how many injected write faults have not fired yet.
 func (d *Disk) PendingPutFaults() int {
 	d.mu.Lock()
